@@ -807,6 +807,14 @@ impl ReCompiler {
             Ok(Operation::from(Nothing))
         } else if min == 1 && max == 1 {
             Ok(ret)
+        } else if ret.get_match_length() == Some(0) {
+            // a zero-width term either matches at a position or it does not,
+            // so repeating it adds nothing
+            if min == 0 {
+                Ok(Operation::from(Nothing))
+            } else {
+                Ok(ret)
+            }
         } else if greedy {
             // actually do the quantifier now
             if let Some(match_length) = ret.get_match_length() {
